@@ -270,12 +270,63 @@ class OracleAPI:
 
 
 # ---------------------------------------------------------------- the real storages
+class SpyLock:
+    """stands in for a storage's commit lock: tells when somebody starts waiting for it"""
+
+    def __init__(self, inner, arrived):
+        self.inner, self.arrived = inner, arrived
+
+    def acquire(self, *a, **k):
+        self.arrived.set()
+        return self.inner.acquire(*a, **k)
+
+    def release(self):
+        return self.inner.release()
+
+    def locked(self):
+        return self.inner.locked()
+
+    def __enter__(self):
+        return self.acquire()
+
+    def __exit__(self, *a):
+        self.release()
+
+
 class RealBase:
     """query side shared by the three storages; self.st is the storage object"""
     kind = None
 
     def __init__(self):
         self.ext_table = {ext_key({}): b''}
+
+    # -- a second thread enters tpc_begin while the transaction in progress holds the commit lock
+    def begin_overlapped(self, tid, now, status, u, d, e):
+        import threading
+        from ZODB.Connection import TransactionMetaData
+        self.note_ext(e)
+        self.next_txn = TransactionMetaData(u, d, e)
+        arrived = threading.Event()
+        self._spied = self.st._commit_lock
+        self.st._commit_lock = SpyLock(self._spied, arrived)
+        self._old_time = time.time
+        if tid is None:
+            time.time = lambda: now
+        self._holder = holder = {}
+
+        def body():
+            holder['r'] = guard(lambda: self._tpc_begin(self.next_txn, tid, status) or 'ok')
+        self._thread = threading.Thread(target=body, daemon=True)
+        self._thread.start()
+        holder['arrived'] = arrived.wait(10.0)
+
+    def begin_overlapped_join(self):
+        self._thread.join(30.0)
+        time.time = self._old_time
+        self.st._commit_lock = self._spied
+        r = self._holder.get('r', 'err:tpc_begin-did-not-return')
+        self.txn = self.next_txn
+        return '%s tid=%s' % (r, hx(u64(self._cur_tid())))
 
     def note_ext(self, e):
         if e:
@@ -349,24 +400,28 @@ class RealFS(RealBase):
         shutil.rmtree(self.dir, ignore_errors=True)
 
     # -- 2PC
+    def _tpc_begin(self, txn, tid, status):
+        self.st.tpc_begin(txn, None if tid is None else p64(tid), status)
+
+    def _cur_tid(self):
+        return self.st._tid
+
     def begin(self, tid, now, status, u, d, e):
         from ZODB.Connection import TransactionMetaData
         self.note_ext(e)
         self.txn = TransactionMetaData(u, d, e)
 
         def f():
-            if tid is not None:
-                self.st.tpc_begin(self.txn, p64(tid), status)
-            else:
-                old = time.time
+            old = time.time
+            if tid is None:
                 time.time = lambda: now
-                try:
-                    self.st.tpc_begin(self.txn, None, status)
-                finally:
-                    time.time = old
+            try:
+                self._tpc_begin(self.txn, tid, status)
+            finally:
+                time.time = old
             return 'ok'
         r = guard(f)
-        return '%s tid=%s' % (r, hx(u64(self.st._tid)))
+        return '%s tid=%s' % (r, hx(u64(self._cur_tid())))
 
     def store(self, oid, serial, data):
         return guard(lambda: self.st.store(p64(oid), p64(serial), data, '', self.txn) and 'ok' or 'ok')
@@ -471,25 +526,31 @@ class RealMap(RealBase):
     def close(self):
         pass
 
+    def _tpc_begin(self, txn, tid, status):
+        if tid is None:
+            self.st.tpc_begin(txn)
+        else:
+            self.st.tpc_begin(txn, p64(tid))
+
+    def _cur_tid(self):
+        return getattr(self.st, 'changes', self.st)._tid
+
     def begin(self, tid, now, status, u, d, e):
         from ZODB.Connection import TransactionMetaData
         self.note_ext(e)
         self.txn = TransactionMetaData(u, d, e)
 
         def f():
-            if tid is not None:
-                self.st.tpc_begin(self.txn, p64(tid))
-            else:
-                old = time.time
+            old = time.time
+            if tid is None:
                 time.time = lambda: now
-                try:
-                    self.st.tpc_begin(self.txn)
-                finally:
-                    time.time = old
+            try:
+                self._tpc_begin(self.txn, tid, status)
+            finally:
+                time.time = old
             return 'ok'
         r = guard(f)
-        inner = getattr(self.st, 'changes', self.st)
-        return '%s tid=%s' % (r, hx(u64(inner._tid)))
+        return '%s tid=%s' % (r, hx(u64(self._cur_tid())))
 
     def store(self, oid, serial, data):
         return guard(lambda: self.st.store(p64(oid), p64(serial), data, '', self.txn) and 'ok' or 'ok')
